@@ -91,3 +91,39 @@ def driver_stage(pid, cfgs, mode, quick_cases, thorough_cases, require_simd=Fals
         # the library set is part of the driver's identity only through the environment; nothing to recompile
     st.prebuild = prebuild
     return st
+
+
+LANG_LEVELS = [('cxx17-gcc', 'g++', 'c++17'), ('cxx98-gcc', 'g++', 'c++98'), ('cxx11-gcc', 'g++', 'c++11'), ('cxx14-gcc', 'g++', 'c++14'), ('cxx20-gcc', 'g++', 'c++20'),
+               ('cxx98-clang', 'clang++', 'c++98'), ('cxx11-clang', 'clang++', 'c++11'), ('cxx14-clang', 'clang++', 'c++14'), ('cxx17-clang', 'clang++', 'c++17'), ('cxx20-clang', 'clang++', 'c++20')]
+
+
+def lang_stage(pid, name='lang'):
+    """props/C15_lang.cpp + one build of optable/langprobe.cpp per (compiler, -std=) pair, no GLM_FORCE_CXX* macro."""
+    st = vlib.Stage(name, ['props/C15_lang.cpp'], libs=['-ldl'], deps=['optable/langprobe.cpp'])
+
+    def prebuild(stage, pid_, tier):
+        src = os.path.join(ROOT, 'optable/langprobe.cpp')
+        base = vlib.files_hash([src], vlib.repo_hash())
+        jobs, libs = [], []
+        for n, cx, std in LANG_LEVELS:
+            cmd = [cx, '-std=' + std, '-O2', '-ffp-contract=off', '-fno-fast-math', '-fPIC', '-shared', '-fvisibility=hidden', '-fvisibility-inlines-hidden', '-w', '-I' + vlib.REPO]
+            key = hashlib.sha256((base + ' '.join(cmd)).encode()).hexdigest()[:16]
+            d = os.path.join(BUILD, 'langprobe', n + '-' + key)
+            so = os.path.join(d, 'liblang.so')
+            libs.append((n, so))
+            if not os.path.exists(so):
+                os.makedirs(d, exist_ok=True)
+                jobs.append((n, cmd + [src, '-o', so]))
+        fails = {}
+
+        def one(job):
+            p = subprocess.run(job[1], stdout=subprocess.PIPE, stderr=subprocess.STDOUT, text=True)
+            return job[0], p.returncode, p.stdout
+        with cf.ThreadPoolExecutor(max_workers=vlib.NCPU) as ex:
+            for n, rc, out in ex.map(one, jobs):
+                if rc != 0:
+                    fails[n] = 'langprobe.cpp: ' + '\n'.join([l for l in out.splitlines() if 'error' in l][:6])
+        stage.lib_failures = fails
+        stage.env.update({'LP_LIBS': ';'.join('%s:%s' % (n, so) for n, so in libs if n not in fails), 'PBT_QUIET': '1'})
+    st.prebuild = prebuild
+    return st
